@@ -8,16 +8,19 @@
      line8         a load line, run from ANY between-lines state B, pops the queue and queues a creator cr, lc_good8 ld cr;
      good8         storing such a creator extends the stash by one batch of captions with the given times, lines of at
                    most 32 characters, and the per-load oracle load_ok for every later end;
-     lc_ok8_wf     lc_ok8 ld = true -> load_wf ld = true;
+     lc_ok8_wf     lc_ok8 ld = true -> load_wf ld = true (trivial now);
      popon_stage8  the one-load corollary: `read` returns captions that, observed, satisfy ok_c05.
 
-   DOMAIN. lc_ok8 ld := load_wf ld && no_mid_after_full8 ld.  The statement for `load_wf` alone is FALSE in the model
-   (Example load_wf_not_enough): a mid-row code makes the reader append a blank to the last text transmitted before it
-   (get_previous_text_node) not only when the code is the first item of its row (the shape `no_mid_after_full` of the
-   spec excludes) but whenever the row shows no character at that moment, e.g. after `Ch a; Bs`.  If the row before
-   fills its 32 cells and the new row is not the next screen row (no BREAK in between), that line gets 33 characters and
-   `read` fails with CaptionLineLengthError.  `no_mid_after_full8` excludes exactly "a row with 32 cells followed by a row
-   in which some mid-row code arrives while no character of the row is on the screen" (row_mid_on_empty, decidable).
+   DOMAIN. lc_ok8 ld := load_wf ld.  A mid-row code makes the reader append a blank to the last text transmitted before it
+   (get_previous_text_node) whenever its own row shows no character at that moment (first item of the row, after other
+   mid-row codes only, after `Ch a; Bs`, ...).  If the row before fills its 32 cells that text has 33 characters when the
+   buffer is queued (lclosed, lineokw: at most ONE such blank, the last character of the line).  Pass 7 of _format_italics
+   right-strips the last text node in front of every BREAK / REPOSITION / the end, looking through italics nodes: the text
+   nodes of a formatted list are not empty, so a line that ends with a blank loses at least that blank (srel, sle_view_aux)
+   and every line of the captions has at most as many characters as its row has cells (lineok_srel).  Before pass 7 looked
+   through italics nodes the blank survived behind an italics-off node and the domain had to exclude "a row with 32 cells
+   followed by a row in which some mid-row code arrives while no character of the row is on the screen"
+   (no_mid_after_full8; Example cex_loads_now_read: the former counterexamples are read correctly).
 
    METHOD. `rx` renders a node list as a flat list of (character, italic) with BREAK / REPOSITION separators (the
    italic state runs across them); passes 1-6 of _format_italics keep `rx` (section 2), pass 7 strips blanks at line ends
@@ -247,11 +250,10 @@ Qed.
 
 Lemma W_sle : forall l p, W p l -> W p (strip_line_ends l).
 Proof.
-  induction l as [|n t IH]; intros p H; [exact I|]. destruct t as [|m t'].
-  - cbn [strip_line_ends]. destruct (is_text n); [apply W_rstrip_node|]; exact H.
-  - rewrite sle_cons2. destruct (is_text n && is_break m).
-    + apply W_rstrip_node. revert H. apply W_cons_eq; try reflexivity; [tauto|]. intros p'. apply IH.
-    + revert H. apply W_cons_eq; try reflexivity; [tauto|]. intros p'. apply IH.
+  induction l as [|n t IH]; intros p H; [exact I|].
+  rewrite sle_cons2. destruct (is_text n && next_plain_is_sep t).
+  - apply W_rstrip_node. revert H. apply W_cons_eq; try reflexivity; [tauto|]. intros p'. apply IH.
+  - revert H. apply W_cons_eq; try reflexivity; [tauto|]. intros p'. apply IH.
 Qed.
 
 Lemma W_format : forall l p, W p l -> W p (format_italics l).
@@ -338,64 +340,101 @@ Qed.
 
 (* ---- 5. pass 7 removes blanks at the end of lines ---------------------------------------------------------------------- *)
 Definition lrel (o o' : line) : Prop := exists sp, o = o' ++ sp /\ blanks sp.
-Definition vrel (v v' : rawv) : Prop := fst v = fst v' /\ Forall2 lrel (snd v) (snd v').
+(* the line ends with a blank *)
+Definition endsb (o : line) : bool := is_space (fst (last o (0, false))).
+(* blanks are removed at the end, at least one if the line ends with a blank *)
+Definition srel (o o' : line) : Prop := lrel o o' /\ (endsb o = true -> (length o' < length o)%nat).
+Definition vrel (v v' : rawv) : Prop := fst v = fst v' /\ Forall2 srel (snd v) (snd v').
 
 Lemma lrel_refl : forall o, lrel o o.
 Proof. intros o. exists []. split; [symmetry; apply app_nil_r|reflexivity]. Qed.
 
+Lemma srel_refl : forall o, endsb o = false -> srel o o.
+Proof. intros o H. split; [apply lrel_refl|]. intros X. congruence. Qed.
+
 Lemma F2_snoc : forall A B (R : A -> B -> Prop) l l' a b, Forall2 R l l' -> R a b -> Forall2 R (l ++ [a]) (l' ++ [b]).
 Proof. intros A B R l l' a b H Hab. apply Forall2_app; [exact H|constructor; [exact Hab|constructor]]. Qed.
 
-Lemma xcaps_rel : forall x p cur ls ls', Forall2 lrel ls ls' -> Forall2 vrel (xcaps x p cur ls) (xcaps x p cur ls').
-Proof.
-  induction x as [|a x IH]; intros p cur ls ls' H.
-  - cbn [xcaps]. constructor; [|constructor]. split; [reflexivity|]. cbn [snd]. apply F2_snoc; [exact H|apply lrel_refl].
-  - destruct a as [c it| |q]; cbn [xcaps].
-    + apply IH. exact H.
-    + apply IH. apply F2_snoc; [exact H|apply lrel_refl].
-    + constructor; [|apply IH; constructor]. split; [reflexivity|]. cbn [snd]. apply F2_snoc; [exact H|apply lrel_refl].
-Qed.
-
 Lemma sle_nontext : forall m t, is_text m = false -> strip_line_ends (m :: t) = m :: strip_line_ends t.
+Proof. intros m t H. rewrite sle_cons2, H. reflexivity. Qed.
+
+Lemma lrel_rstrip : forall (cur : line) b x, lrel (cur ++ tag b x) (cur ++ tag b (rstrip x)).
 Proof.
-  intros m t H. destruct t as [|m2 t']; [cbn [strip_line_ends]; rewrite H; reflexivity|].
-  rewrite sle_cons2, H. reflexivity.
+  intros cur b x. destruct (rstrip_split x) as [sp [E F]]. exists (tag b sp). split; [|exact (blanks_tag b sp F)].
+  rewrite E at 1. rewrite tag_app, app_assoc. reflexivity.
 Qed.
 
-Definition Qs (l : list inode) : Prop := forall b p cur ls ls', Forall2 lrel ls ls' ->
-  Forall2 vrel (xcaps (rx b l) p cur ls) (xcaps (rx b (strip_line_ends l)) p cur ls').
-
-Lemma sle_view_aux : forall l, Qs l /\ forall n, Qs (n :: l).
+Lemma lstrip_len : forall f l, (length (lstrip_by f l) <= length l)%nat.
 Proof.
-  induction l as [|m t [IH1 IH2]].
-  - assert (Q0 : Qs []) by (intros b p cur ls ls' H; apply xcaps_rel; exact H).
-    split; [exact Q0|]. intros n b p cur ls ls' H. cbn [strip_line_ends].
-    destruct n as [k x q]; destruct k; cbn [is_text i_kind]; try (apply xcaps_rel; exact H).
-    cbn [rx rstrip_node i_kind i_text i_pos]. rewrite !app_nil_r. rewrite <- !xl_tag.
-    rewrite <- (app_nil_r (xl (tag b x))), <- (app_nil_r (xl (tag b (rstrip x)))), !xcaps_xl. cbn [xcaps].
-    constructor; [|constructor]. split; [reflexivity|]. cbn [snd]. apply F2_snoc; [exact H|].
-    destruct (rstrip_split x) as [sp [E F]]. exists (tag b sp). split; [|exact (blanks_tag b sp F)].
-    rewrite E at 1. rewrite tag_app, app_assoc. reflexivity.
-  - split; [exact (IH2 m)|]. intros n b p cur ls ls' H. rewrite sle_cons2.
-    destruct n as [k x q]; destruct k; cbn [is_text i_kind andb].
-    + destruct (is_break m) eqn:Em.
-      * assert (Hk : i_kind m = IBreak) by (unfold is_break in Em; destruct (i_kind m); try discriminate; reflexivity).
-        assert (Ht : is_text m = false) by (unfold is_text; rewrite Hk; reflexivity).
-        rewrite (sle_nontext m t Ht). cbn [rx rstrip_node i_kind i_text i_pos]. rewrite Hk. rewrite !xcaps_tagx. cbn [xcaps].
-        apply IH1. apply F2_snoc; [exact H|].
-        destruct (rstrip_split x) as [sp [E F]]. exists (tag b sp). split; [|exact (blanks_tag b sp F)].
-        rewrite E at 1. rewrite tag_app, app_assoc. reflexivity.
-      * cbn [rx i_kind i_text]. rewrite !xcaps_tagx. apply (IH2 m). exact H.
-    + cbn [rx i_kind xcaps]. apply (IH2 m). apply F2_snoc; [exact H|apply lrel_refl].
-    + cbn [rx i_kind]. apply (IH2 m). exact H.
-    + cbn [rx i_kind]. apply (IH2 m). exact H.
-    + cbn [rx i_kind i_pos xcaps]. constructor; [|apply (IH2 m); constructor].
-      split; [reflexivity|]. cbn [snd]. apply F2_snoc; [exact H|apply lrel_refl].
+  intros f l. destruct (lstrip_split f l) as [sp [E _]]. apply (f_equal (@length Z)) in E. rewrite app_length in E. lia.
+Qed.
+
+(* a text node with text that ends with a blank loses at least that blank *)
+Lemma srel_rstrip : forall (cur : line) b x, nonempty x = true -> srel (cur ++ tag b x) (cur ++ tag b (rstrip x)).
+Proof.
+  intros cur b x Hx. split; [apply lrel_rstrip|]. intros He.
+  destruct x as [|c0 x0]; [discriminate Hx|]. destruct (exists_last (l := c0 :: x0)) as (l & c & E); [discriminate|]. rewrite E in *.
+  unfold endsb in He. rewrite tag_app, app_assoc in He. cbn [tag map] in He. rewrite last_last in He. cbn [fst] in He.
+  rewrite !app_length. unfold tag. rewrite !map_length. unfold rstrip, rstrip_by. rewrite rev_unit. cbn [lstrip_by]. rewrite He.
+  rewrite rev_length, app_length. cbn [length]. pose proof (lstrip_len is_space (rev l)) as L. rewrite rev_length in L. lia.
+Qed.
+
+(* no empty text node (pass 2) *)
+Definition net (l : list inode) : Prop := Forall (fun n => is_text n = true -> nonempty (i_text n) = true) l.
+
+Lemma passes16_net : forall l, net (passes16 l).
+Proof.
+  intros l. unfold net. apply Forall_forall. intros n Hn Ht.
+  assert (Ep : plain n = true) by (unfold plain, is_on, is_off, is_text in *; destruct (i_kind n); try discriminate; reflexivity).
+  assert (Hin : In n (filter plain (passes16 l))) by (apply filter_In; split; assumption).
+  rewrite passes16_keep_plain in Hin. apply filter_In in Hin. destruct Hin as [_ Hk]. unfold keep in Hk. rewrite Ep, Ht in Hk.
+  cbn [andb] in Hk. apply negb_true_iff in Hk. apply negb_false_iff in Hk. exact Hk.
+Qed.
+
+(* cur: the current line so far. Either it does not end with a blank, or a text node follows on the same line *)
+Definition Qs (l : list inode) : Prop := forall b p cur ls ls', endsb cur = false \/ next_plain_is_sep l = false -> Forall2 srel ls ls' ->
+  Forall2 vrel (xcaps (rx b l) p cur ls) (xcaps (rx b (strip_line_ends l)) p cur ls').
+(* when only italics nodes stand in front of the next separator, the current line has already been stripped *)
+Definition Qs2 (l : list inode) : Prop := next_plain_is_sep l = true -> forall b p cur cur' ls ls', srel cur cur' -> Forall2 srel ls ls' ->
+  Forall2 vrel (xcaps (rx b l) p cur ls) (xcaps (rx b (strip_line_ends l)) p cur' ls').
+
+Lemma sle_view_aux : forall l, net l -> Qs l /\ Qs2 l.
+Proof.
+  induction l as [|n t IH]; intros N.
+  - split.
+    + intros b p cur ls ls' Hc H. cbn [strip_line_ends rx xcaps]. constructor; [|constructor].
+      split; [reflexivity|]. cbn [snd]. apply F2_snoc; [exact H|]. apply srel_refl. destruct Hc as [Hc|Hc]; [exact Hc|discriminate Hc].
+    + intros _ b p cur cur' ls ls' Hc H. cbn [strip_line_ends rx xcaps]. constructor; [|constructor].
+      split; [reflexivity|]. cbn [snd]. apply F2_snoc; assumption.
+  - inversion N as [|? ? Hn Nt]; subst. destruct (IH Nt) as [IH1 IH2]. split.
+    + intros b p cur ls ls' Hc H. rewrite sle_cons2.
+      destruct n as [k x q]; destruct k;
+        cbn [next_plain_is_sep is_on is_off is_break is_repos is_text i_kind orb andb] in Hc |- *.
+      * destruct (next_plain_is_sep t) eqn:Es.
+        -- cbn [rx rstrip_node i_kind i_text i_pos]. rewrite !xcaps_tagx. apply (IH2 Es); [apply srel_rstrip; exact (Hn eq_refl)|exact H].
+        -- cbn [rx i_kind i_text]. rewrite !xcaps_tagx. apply IH1; [right; exact Es|exact H].
+      * assert (Hc' : endsb cur = false) by (destruct Hc as [Hc|Hc]; [exact Hc|discriminate Hc]).
+        cbn [rx i_kind xcaps]. apply IH1; [left; reflexivity|]. apply F2_snoc; [exact H|exact (srel_refl cur Hc')].
+      * cbn [rx i_kind]. apply IH1; assumption.
+      * cbn [rx i_kind]. apply IH1; assumption.
+      * assert (Hc' : endsb cur = false) by (destruct Hc as [Hc|Hc]; [exact Hc|discriminate Hc]).
+        cbn [rx i_kind i_pos xcaps]. constructor; [|apply IH1; [left; reflexivity|constructor]].
+        split; [reflexivity|]. cbn [snd]. apply F2_snoc; [exact H|exact (srel_refl cur Hc')].
+    + intros Hs b p cur cur' ls ls' Hc H. rewrite sle_cons2.
+      destruct n as [k x q]; destruct k;
+        cbn [next_plain_is_sep is_on is_off is_break is_repos is_text i_kind orb andb] in Hs |- *.
+      * discriminate Hs.
+      * cbn [rx i_kind xcaps]. apply IH1; [left; reflexivity|]. apply F2_snoc; assumption.
+      * cbn [rx i_kind]. apply (IH2 Hs); assumption.
+      * cbn [rx i_kind]. apply (IH2 Hs); assumption.
+      * cbn [rx i_kind i_pos xcaps]. constructor; [|apply IH1; [left; reflexivity|constructor]].
+        split; [reflexivity|]. cbn [snd]. apply F2_snoc; assumption.
 Qed.
 
 Lemma format_view : forall l p, Forall2 vrel (xcaps (rx false l) p [] []) (xcaps (rx false (format_italics l)) p [] []).
 Proof.
-  intros l p. rewrite format_italics_is, <- (passes16_rx l). apply (proj1 (sle_view_aux (passes16 l))). constructor.
+  intros l p. rewrite format_italics_is, <- (passes16_rx l).
+  apply (proj1 (sle_view_aux (passes16 l) (passes16_net l))); [left; reflexivity|constructor].
 Qed.
 
 Lemma format_chk : forall l, chk false (format_italics l) = true.
@@ -936,8 +975,8 @@ Proof.
   destruct (add_chars_inv2 p0 tk nodes sty V ital (a ++ b) Hh) as (nodes' & Ea & Ga).
   exists nodes'. split; [|exact Ga]. unfold RS.
   destruct (char_word_class w a b Ha Hb) as (Hc & Hp & Hs & He & Ht & Hq & Hbs).
-  unfold translate_word. proj_red. unfold handle_double. proj_red. rewrite Hc, Hp, Hs, He, Ht, Hq, Hbs.
-  proj_red. rewrite !andb_false_r. proj_red. rewrite Ha, Hb. unfold add_to_buf. proj_red.
+  unfold translate_word. proj_red. unfold handle_double. proj_red. rewrite Hc, Hp, Hs, He, Ht, Hq.
+  proj_red. rewrite ?andb_false_r. proj_red. rewrite Ha, Hb. unfold add_to_buf. proj_red.
   rewrite Ea. proj_red. reflexivity.
 Qed.
 
@@ -982,10 +1021,10 @@ Qed.
 
 Lemma dt_code8 : forall w k tk l nodes sty fr, kind_ok w k -> d = true -> doubled_type (R8 sty tk l nodes fr) w = true.
 Proof.
-  intros w k tk l nodes sty fr Hk Hd. unfold doubled_type, RS. proj_red. rewrite Hd.
+  intros w k tk l nodes sty fr Hk _. unfold doubled_type.
   destruct k as [ch|ch|]; cbn [kind_ok] in Hk.
   - rewrite Hk. rewrite orb_true_r. reflexivity.
-  - rewrite Hk. cbn [andb orb]. apply orb_true_r.
+  - rewrite Hk. apply orb_true_r.
   - subst w. vm_compute. reflexivity.
 Qed.
 
@@ -1039,7 +1078,7 @@ Proof.
   intros a tk nodes sty fr n Ha. destruct (mid_facts a Ha) as (_ & _ & Hbs & _ & Hq & _). destruct (midrow_classes a Ha) as (_ & Hc & _).
   rewrite tw_second; [|reflexivity|reflexivity|].
   - rewrite Hq. reflexivity.
-  - unfold doubled_type. rewrite Hbs, Hc. reflexivity.
+  - unfold doubled_type. rewrite Hc. reflexivity.
 Qed.
 
 Lemma vstep_refl : forall V, vstep V V.
@@ -1080,41 +1119,22 @@ End Run8.
 
 
 (* ---- 14. the run over the tokens of a row ------------------------------------------------------------------------------------ *)
-Definition is_cellb (c : cell) : bool := match c with Cell _ _ => true | Opt => false end.
-
-(* some mid-row code arrives while no character of its row is on the screen *)
-Fixpoint mblank (ts : list mtok) (acc : list cell) (ital : bool) : bool :=
-  match ts with
-  | [] => false
-  | MCh _ c :: t => mblank t (acc ++ [Cell c ital]) ital
-  | MCode _ (KSp ch) :: t => mblank t (acc ++ [Cell ch ital]) ital
-  | MCode _ (KExt ch) :: t => mblank t (removelast acc ++ [Cell ch ital]) ital
-  | MCode _ KBs :: t => mblank t (removelast acc) ital
-  | MMid a :: t => negb (existsb is_cellb acc) || mblank t (acc ++ [Opt]) (is_italic_attr a)
-  end.
-
 (* the line before the current one: it shows its cells, possibly followed by one blank (added by a mid-row code of the
-   current row), the latter only if the row is not full *)
+   current row; pass 7 of _format_italics removes it again: srel) *)
 Definition lclosed (cs : list cell) (o : line) : Prop :=
   exists o0 sp, o = o0 ++ sp /\ match_cells cs o0 = true /\ Forall gch o /\
-    (sp = [] \/ ((exists b, sp = [(32, b)]) /\ (length cs < 32)%nat)).
+    (sp = [] \/ exists b, sp = [(32, b)]).
 Definition Shape (CC : list xch) (o : line) (SEP : list xch) : Prop :=
   (CC = [] /\ o = [] /\ SEP = []) \/ (o <> [] /\ exists z, issep z = true /\ SEP = [z]).
-
-Lemma match_nil_nocell : forall cs, match_cells cs [] = true -> existsb is_cellb cs = false.
-Proof.
-  induction cs as [|c cs IH]; intros H; [reflexivity|]. destruct c as [ch it|]; cbn [match_cells] in H; [discriminate H|].
-  rewrite orb_false_r in H. cbn [existsb is_cellb orb]. exact (IH H).
-Qed.
 
 Lemma gch_blank : forall b, gch (32, b).
 Proof. intros b. reflexivity. Qed.
 
 Lemma mid_shape : forall CC SEP csp o lc acc rend V', Shape CC o SEP -> lclosed csp o -> J lc acc rend ->
-  vstep ((CC ++ xl o ++ SEP) ++ xl rend) V' -> (existsb is_cellb acc = false -> (length csp < 32)%nat) ->
+  vstep ((CC ++ xl o ++ SEP) ++ xl rend) V' ->
   exists o' rend', V' = (CC ++ xl o' ++ SEP) ++ xl rend' /\ Shape CC o' SEP /\ lclosed csp o' /\ J None (acc ++ [Opt]) rend'.
 Proof.
-  intros CC SEP csp o lc acc rend V' Hs Hc Hj Hv Hlen. destruct Hv as [->|[[b ->]|(A & c & b & S & EV & HS & Hsp & ->)]].
+  intros CC SEP csp o lc acc rend V' Hs Hc Hj Hv. destruct Hv as [->|[[b ->]|(A & c & b & S & EV & HS & Hsp & ->)]].
   - exists o, rend. split; [reflexivity|split; [exact Hs|split; [exact Hc|]]]. apply (J_mid lc acc rend); [exact Hj|left; reflexivity].
   - exists o, (rend ++ [(32, b)]). split; [rewrite xl_snoc; symmetry; apply app_assoc|split; [exact Hs|split; [exact Hc|]]].
     apply (J_mid lc acc rend); [exact Hj|right; exists b; reflexivity].
@@ -1130,11 +1150,10 @@ Proof.
         split; [right; split; [intros X; apply app_eq_nil in X; destruct X as [_ X]; discriminate X|exists z; split; [exact Hz|reflexivity]]|].
         split.
         -- destruct Hc as (o0 & sp & Eo & Hm & Hg & Hsp').
-           assert (Ejn : match_cells acc [] = true) by (destruct Hj as (X & _); exact X).
-           destruct Hsp' as [->|[[b2 ->] _]].
+           destruct Hsp' as [->|[b2 ->]].
            ++ rewrite app_nil_r in Eo. exists o0, [(32, b1)]. split; [rewrite Eo; reflexivity|split; [exact Hm|split]].
               ** apply Forall_app. split; [exact Hg|constructor; [apply gch_blank|constructor]].
-              ** right. split; [exists b1; reflexivity|]. apply Hlen. exact (match_nil_nocell _ Ejn).
+              ** right. exists b1. reflexivity.
            ++ apply app_inj_tail in Eo. destruct Eo as [_ Eo]. injection Eo as -> _. discriminate Hsp.
         -- apply (J_mid lc acc []); [exact Hj|left; reflexivity].
     + rewrite xl_snoc in EV. rewrite app_assoc in EV.
@@ -1189,41 +1208,39 @@ Qed.
 
 Lemma mtoks_run8 : forall nx ts,
   (forall acc ital lc pc o rend tk l nodes sty fr, mok ts pc lc ital -> St2 p0 tk nodes sty (VV o rend) ital ->
-     Shape CC o SEP -> lclosed csp o -> J lc acc rend -> linv l pc -> (mblank ts acc ital = true -> (length csp < 32)%nat) ->
+     Shape CC o SEP -> lclosed csp o -> J lc acc rend -> linv l pc ->
      mgoal8 tk l nodes sty fr nx (mpack d ts None) (csem ts acc ital)) /\
   (forall b0 c0 acc ital lc o rend tk l nodes sty fr, carries b0 c0 -> gcharb c0 = true -> mok ts None (Some c0) ital ->
      St2 p0 tk nodes sty (VV o rend) ital -> Shape CC o SEP -> lclosed csp o -> J lc acc rend ->
-     (mblank ts (acc ++ [Cell c0 ital]) ital = true -> (length csp < 32)%nat) ->
      mgoal8 tk l nodes sty fr nx (mpack d ts (Some b0)) (csem ts (acc ++ [Cell c0 ital]) ital)).
 Proof.
   intros nx.
   assert (FL : forall ts,
      (forall acc ital lc pc o rend tk l nodes sty fr, mok ts pc lc ital -> St2 p0 tk nodes sty (VV o rend) ital ->
-        Shape CC o SEP -> lclosed csp o -> J lc acc rend -> linv l pc -> (mblank ts acc ital = true -> (length csp < 32)%nat) ->
+        Shape CC o SEP -> lclosed csp o -> J lc acc rend -> linv l pc ->
         mgoal8 tk l nodes sty fr nx (mpack d ts None) (csem ts acc ital)) ->
      forall b0 c0 acc ital lc o rend tk l nodes sty fr, carries b0 c0 -> gcharb c0 = true -> mok ts None (Some c0) ital ->
         St2 p0 tk nodes sty (VV o rend) ital -> Shape CC o SEP -> lclosed csp o -> J lc acc rend ->
-        (mblank ts (acc ++ [Cell c0 ital]) ital = true -> (length csp < 32)%nat) ->
         mgoal8 tk l nodes sty fr nx ((b0 * 256 + 128) :: mpack d ts None) (csem ts (acc ++ [Cell c0 ital]) ital)).
-  { intros ts A1 b0 c0 acc ital lc o rend tk l nodes sty fr [Rg0 Hc0] Hg0 Hok Hh Hs Hcl Hj Hm.
+  { intros ts A1 b0 c0 acc ital lc o rend tk l nodes sty fr [Rg0 Hc0] Hg0 Hok Hh Hs Hcl Hj.
     assert (Ha : char_of (hi (b0 * 256 + 128)) = Some [c0]) by (rewrite hi_word by lia; exact Hc0).
     assert (Hl : char_of (lo (b0 * 256 + 128)) = Some []) by (rewrite lo_word by lia; exact char_of_pad).
     apply (mgoal8_char tk l nodes sty o rend ital fr nx _ [c0] [] _ _ Ha Hl Hh).
     intros l1 nodes1 fr1 Hh1 Hl1.
-    exact (A1 _ ital (Some c0) None o _ (norm tk) l1 nodes1 sty fr1 Hok Hh1 Hs Hcl (J_char lc acc rend c0 ital Hj Hg0) Hl1 Hm). }
+    exact (A1 _ ital (Some c0) None o _ (norm tk) l1 nodes1 sty fr1 Hok Hh1 Hs Hcl (J_char lc acc rend c0 ital Hj Hg0) Hl1). }
   induction ts as [|tk0 ts [IHa IHb]].
   - assert (A1 : forall acc ital lc pc o rend tk l nodes sty fr, mok [] pc lc ital -> St2 p0 tk nodes sty (VV o rend) ital ->
-        Shape CC o SEP -> lclosed csp o -> J lc acc rend -> linv l pc -> (mblank [] acc ital = true -> (length csp < 32)%nat) ->
+        Shape CC o SEP -> lclosed csp o -> J lc acc rend -> linv l pc ->
         mgoal8 tk l nodes sty fr nx (mpack d [] None) (csem [] acc ital)).
-    { intros acc ital lc pc o rend tk l nodes sty fr _ Hh Hs Hcl Hj [_ Hl] _. exists l, tk, nodes, sty, o, rend, ital.
+    { intros acc ital lc pc o rend tk l nodes sty fr _ Hh Hs Hcl Hj [_ Hl]. exists l, tk, nodes, sty, o, rend, ital.
       cbn [mpack flush tws length csem]. rewrite Z.add_0_r.
       split; [reflexivity|split; [exact Hh|split; [reflexivity|split; [reflexivity|split; [exact Hs|split; [exact Hcl|split; [exact (J_weak _ _ _ Hj)|split; [exact Hl|left; split; reflexivity]]]]]]]]. }
     split; [exact A1|]. exact (FL [] A1).
   - destruct tk0 as [b c|w k|a].
     + split.
-      * intros acc ital lc pc o rend tk l nodes sty fr (Hc & Hg & Hok) Hh Hs Hcl Hj _ Hm. cbn [mpack csem].
-        exact (IHb b c acc ital lc o rend tk l nodes sty fr Hc Hg Hok Hh Hs Hcl Hj Hm).
-      * intros b0 c0 acc ital lc o rend tk l nodes sty fr [Rg0 Hc0] Hg0 ([Rg Hc] & Hg & Hok) Hh Hs Hcl Hj Hm. cbn [mpack csem].
+      * intros acc ital lc pc o rend tk l nodes sty fr (Hc & Hg & Hok) Hh Hs Hcl Hj _. cbn [mpack csem].
+        exact (IHb b c acc ital lc o rend tk l nodes sty fr Hc Hg Hok Hh Hs Hcl Hj).
+      * intros b0 c0 acc ital lc o rend tk l nodes sty fr [Rg0 Hc0] Hg0 ([Rg Hc] & Hg & Hok) Hh Hs Hcl Hj. cbn [mpack csem].
         assert (Ha : char_of (hi (b0 * 256 + b)) = Some [c0]) by (rewrite hi_word by exact Rg; exact Hc0).
         assert (Hl : char_of (lo (b0 * 256 + b)) = Some [c]) by (rewrite lo_word by exact Rg; exact Hc).
         apply (mgoal8_char tk l nodes sty o rend ital fr nx _ [c0] [c] _ _ Ha Hl Hh).
@@ -1234,11 +1251,10 @@ Proof.
         -- exact Hcl.
         -- apply (J_char (Some c0)); [|exact Hg]. exact (J_char lc acc rend c0 ital Hj Hg0).
         -- exact Hl1.
-        -- exact Hm.
     + assert (A1 : forall acc ital lc pc o rend tk l nodes sty fr, mok (MCode w k :: ts) pc lc ital -> St2 p0 tk nodes sty (VV o rend) ital ->
-          Shape CC o SEP -> lclosed csp o -> J lc acc rend -> linv l pc -> (mblank (MCode w k :: ts) acc ital = true -> (length csp < 32)%nat) ->
+          Shape CC o SEP -> lclosed csp o -> J lc acc rend -> linv l pc ->
           mgoal8 tk l nodes sty fr nx (mpack d (MCode w k :: ts) None) (csem (MCode w k :: ts) acc ital)).
-      { intros acc ital lc pc o rend tk l nodes sty fr (Hpc & Hk & Hrest) Hh Hs Hcl Hj Hl Hm. cbn [mpack flush app].
+      { intros acc ital lc pc o rend tk l nodes sty fr (Hpc & Hk & Hrest) Hh Hs Hcl Hj Hl. cbn [mpack flush app].
         assert (Hpre : kprer k rend).
         { destruct k as [ch|ch|]; cbn [kprer]; try exact I. destruct Hrest as (_ & (c & -> & Hx) & _).
           destruct (J_pop c acc rend Hj) as (o1 & b & -> & _). exists o1, c, b. split; [reflexivity|exact Hx]. }
@@ -1248,58 +1264,35 @@ Proof.
         destruct (code_run8 st p0 d pa ro q tm tc off w k pc tk l nodes sty _ rend ital fr (nxt (mpack d ts None) nx) Hk Hpre Hne Hpc Hh Hl)
           as (l1 & nodes1 & E1 & Hh1 & Hl1 & Hr1).
         apply (mgoal8_step tk l nodes sty fr nx (ctl d w) _ _ (norm tk) l1 nodes1 sty E1 eq_refl eq_refl Hr1).
-        destruct k as [ch|ch|]; cbn [csem ksemr mblank] in *.
-        - destruct Hrest as (Hg & Hok). exact (IHa _ ital (Some ch) (Some w) o _ (norm tk) l1 nodes1 sty _ Hok Hh1 Hs Hcl (J_char lc acc rend ch ital Hj Hg) Hl1 Hm).
+        destruct k as [ch|ch|]; cbn [csem ksemr] in *.
+        - destruct Hrest as (Hg & Hok). exact (IHa _ ital (Some ch) (Some w) o _ (norm tk) l1 nodes1 sty _ Hok Hh1 Hs Hcl (J_char lc acc rend ch ital Hj Hg) Hl1).
         - destruct Hrest as (Hg & (c & -> & Hx) & Hok). destruct (J_pop c acc rend Hj) as (o1 & b & -> & Hj').
           rewrite removelast_last in Hh1.
-          exact (IHa _ ital (Some ch) (Some w) o _ (norm tk) l1 nodes1 sty _ Hok Hh1 Hs Hcl (J_char None _ o1 ch ital Hj' Hg) Hl1 Hm).
+          exact (IHa _ ital (Some ch) (Some w) o _ (norm tk) l1 nodes1 sty _ Hok Hh1 Hs Hcl (J_char None _ o1 ch ital Hj' Hg) Hl1).
         - destruct Hrest as (Hlc & Hok). destruct lc as [c|]; [|congruence]. destruct (J_pop c acc rend Hj) as (o1 & b & -> & Hj').
           rewrite removelast_last in Hh1.
-          exact (IHa _ ital None (Some w) o _ (norm tk) l1 nodes1 sty _ Hok Hh1 Hs Hcl Hj' Hl1 Hm). }
+          exact (IHa _ ital None (Some w) o _ (norm tk) l1 nodes1 sty _ Hok Hh1 Hs Hcl Hj' Hl1). }
       split; [exact A1|]. exact (FL (MCode w k :: ts) A1).
     + assert (A1 : forall acc ital lc pc o rend tk l nodes sty fr, mok (MMid a :: ts) pc lc ital -> St2 p0 tk nodes sty (VV o rend) ital ->
-          Shape CC o SEP -> lclosed csp o -> J lc acc rend -> linv l pc -> (mblank (MMid a :: ts) acc ital = true -> (length csp < 32)%nat) ->
+          Shape CC o SEP -> lclosed csp o -> J lc acc rend -> linv l pc ->
           mgoal8 tk l nodes sty fr nx (mpack d (MMid a :: ts) None) (csem (MMid a :: ts) acc ital)).
-      { intros acc ital lc pc o rend tk l nodes sty fr (Ha & Hpc & Hok) Hh Hs Hcl Hj Hl Hm. cbn [mpack flush app csem]. cbn [mblank] in Hm.
+      { intros acc ital lc pc o rend tk l nodes sty fr (Ha & Hpc & Hok) Hh Hs Hcl Hj Hl. cbn [mpack flush app csem].
         destruct (mid_run8 st p0 d pa ro q tm tc off a pc tk l nodes sty _ ital fr (nxt (mpack d ts None) nx) Ha Hpc Hh Hl)
           as (l1 & tk1 & nodes1 & sty1 & V1 & E1 & Hh1 & P1 & D1 & Hv & Hl1 & Hr1).
         destruct (mid_shape CC SEP csp o lc acc rend V1 Hs Hcl Hj Hv) as (o' & rend' & -> & Hs' & Hcl' & Hj').
-        { intros X. apply Hm. rewrite X. reflexivity. }
         apply (mgoal8_step tk l nodes sty fr nx (ctl d (midrow_word a)) _ _ tk1 l1 nodes1 sty1 E1 P1 D1 Hr1).
-        apply (IHa _ _ None (Some (midrow_word a)) o' rend' tk1 l1 nodes1 sty1 _ Hok Hh1 Hs' Hcl' Hj' Hl1).
-        intros X. apply Hm. rewrite X. apply orb_true_r. }
+        exact (IHa _ _ None (Some (midrow_word a)) o' rend' tk1 l1 nodes1 sty1 _ Hok Hh1 Hs' Hcl' Hj' Hl1). }
       split; [exact A1|]. exact (FL (MMid a :: ts) A1).
 Qed.
 End RunD8.
 
 
 (* ---- 15. the domain ---------------------------------------------------------------------------------------------------------- *)
-(* some mid-row code of the row arrives while no character of the row is on the screen: at its start, after other
-   mid-row codes only, or after backspaces have removed everything transmitted before *)
-Fixpoint mid_on_empty (its : list SpecScc05.item) (acc : list cell) (ital : bool) : bool :=
-  match its with
-  | [] => false
-  | Ch c :: t => mid_on_empty t (acc ++ [Cell c ital]) ital
-  | Sp i :: t => mid_on_empty t (acc ++ [Cell (nth (Z.to_nat i) special_608 0) ital]) ital
-  | Ext _ g i :: t => mid_on_empty t (acc ++ [Cell (ext_char g i) ital]) ital
-  | Mid a :: t => negb (existsb is_cellb acc) || mid_on_empty t (acc ++ [Opt]) (is_italic_attr a)
-  | Bs :: t => mid_on_empty t (removelast acc) ital
-  end.
-Definition row_mid_on_empty (r : row) : bool := mid_on_empty (rw_items r) [] (rw_ital r).
-(* a row that fills its 32 cells is not followed by such a row (no_mid_after_full of the spec: "by a row starting with a
-   mid-row code") *)
-Fixpoint no_mid_after_full8 (l : load) : bool :=
-  match l with
-  | r :: ((r' :: _) as t) => negb ((32 <=? Z.of_nat (length (cells_of r))) && row_mid_on_empty r') && no_mid_after_full8 t
-  | _ => true
-  end.
-Definition lc_ok8 (ld : load) : bool := load_wf ld && no_mid_after_full8 ld.
-
-Lemma mblank_items : forall its acc ital, mblank (flat_map mtoks_of_item its) acc ital = mid_on_empty its acc ital.
-Proof.
-  induction its as [|it t IH]; intros acc ital; [reflexivity|].
-  destruct it as [c|i|s g i|a|]; cbn [flat_map mtoks_of_item app mblank mid_on_empty]; rewrite ?removelast_last, IH; reflexivity.
-Qed.
+(* load_wf: every row in row_ok, distinct row numbers.  (Until pass 7 of _format_italics looked through italics nodes the
+   domain also excluded "a row with 32 cells followed by a row in which a mid-row code arrives while no character of the
+   row is on the screen" (no_mid_after_full8): the blank such a code appends to the full line survived behind an
+   italics-off node.) *)
+Definition lc_ok8 (ld : load) : bool := load_wf ld.
 
 (* ---- 16. flat lists made of rows ------------------------------------------------------------------------------------------------ *)
 Inductive sepk : Type := SF | SB | SR (p : pos).
@@ -1310,10 +1303,14 @@ Definition sepof (prev : option Z) (r : row) : sepk :=
   match prev with None => SF | Some lr => if rw_row r =? lr + 1 then SB else SR (row_pos r) end.
 Definition lineok (cs : list cell) (o : line) : Prop :=
   match_line cs o = true /\ (length o <= 32)%nat /\ Forall gch o /\ existsb (fun x => negb (is_space (fst x))) o = true.
+(* in the queued buffer a line may still carry the blank of a mid-row code of the next row: 33 characters at most, the
+   last one a blank *)
+Definition lineokw (cs : list cell) (o : line) : Prop :=
+  match_line cs o = true /\ (length o <= (if endsb o then 33 else 32))%nat /\ Forall gch o /\ existsb (fun x => negb (is_space (fst x))) o = true.
 Fixpoint Rrows (prev : option Z) (rows : list row) (xs : list xseg) : Prop :=
   match rows, xs with
   | [], [] => True
-  | r :: t, so :: xs' => fst so = sepof prev r /\ lineok (cells_of r) (snd so) /\ Rrows (Some (rw_row r)) t xs'
+  | r :: t, so :: xs' => fst so = sepof prev r /\ lineokw (cells_of r) (snd so) /\ Rrows (Some (rw_row r)) t xs'
   | _, _ => False
   end.
 
@@ -1337,14 +1334,17 @@ Proof.
   cbn [existsb]. rewrite (proj1 H), (IH (proj2 H)). reflexivity.
 Qed.
 
-Lemma lclosed_lineok : forall cs o, lclosed cs o -> existsb cell_vis cs = true -> (length cs <= 32)%nat -> lineok cs o.
+Lemma lclosed_lineok : forall cs o, lclosed cs o -> existsb cell_vis cs = true -> (length cs <= 32)%nat -> lineokw cs o.
 Proof.
   intros cs o (o0 & sp & -> & Hm & Hg & Hsp) Hv Hlen.
-  assert (Hb : blanks sp) by (destruct Hsp as [->|[[b ->] _]]; reflexivity).
+  assert (Hb : blanks sp) by (destruct Hsp as [->|[b ->]]; reflexivity).
   pose proof (match_len _ _ Hm) as L0.
   split; [|split; [|split; [exact Hg|]]].
   - unfold match_line. rewrite (rstrip_obs_app_blanks o0 sp Hb). exact (match_rstrip _ _ Hm).
-  - rewrite app_length. destruct Hsp as [->|[[b ->] Hl]]; cbn [length]; lia.
+  - destruct Hsp as [->|[b ->]].
+    + rewrite app_nil_r. destruct (endsb o0); lia.
+    + unfold endsb. rewrite last_last. cbn [fst]. replace (is_space 32) with true by reflexivity.
+      rewrite app_length. cbn [length]. lia.
   - rewrite existsb_app. apply Forall_app in Hg. rewrite (vis_char cs o0 Hm (proj1 Hg) Hv). reflexivity.
 Qed.
 
@@ -1420,20 +1420,18 @@ Notation R8 sty tk l nodes fr := (RS st d sty pa ro q tm tc off tk l nodes fr).
 (* ---- 18. the items of a row --------------------------------------------------------------------------------------------------- *)
 Lemma items_run8 : forall r CC SEP csp oprev tk l nodes sty fr nx, row_ok r = true ->
   St2 p0 tk nodes sty ((CC ++ xl oprev ++ SEP) ++ xl []) (rw_ital r) -> Shape CC oprev SEP -> lclosed csp oprev -> linv l None ->
-  (row_mid_on_empty r = true -> (length csp < 32)%nat) ->
   exists l' nodes' sty' ital' o' rend',
     tws (R8 sty tk l nodes fr) (mpack d (flat_map mtoks_of_item (rw_items r)) None) nx
       = R8 sty' (norm tk) l' nodes' (fr + Z.of_nat (length (mpack d (flat_map mtoks_of_item (rw_items r)) None))) /\
     St2 p0 (norm tk) nodes' sty' ((CC ++ xl o' ++ SEP) ++ xl rend') ital' /\ Shape CC o' SEP /\ lclosed csp o' /\
     J None (cells_of r) rend' /\ rend' <> [] /\ last_is l' w_eoc = false /\ rowlast l'.
 Proof.
-  intros r CC SEP csp oprev tk l nodes sty fr nx H Hh Hs Hcl Hl Hm.
+  intros r CC SEP csp oprev tk l nodes sty fr nx H Hh Hs Hcl Hl.
   destruct (row_ok_parts r H) as (_ & _ & _ & Hio & _). destruct (row_len r H) as (_ & Hv & Hne).
   destruct (items_mok (rw_items r) None [] (rw_ital r) None Hio I) as [Hok Hsem]. cbn [pc_of_c] in Hok. fold (cells_of r) in Hsem.
   destruct (proj1 (mtoks_run8 st p0 d pa ro q tm tc off CC SEP csp nx (flat_map mtoks_of_item (rw_items r)))
               [] (rw_ital r) None None oprev [] tk l nodes sty fr Hok Hh Hs Hcl (conj eq_refl (conj (Forall_nil _) I)) Hl)
     as (l' & tk' & nodes' & sty' & o' & rend' & ital' & E & Hh' & P & D & Hs' & Hcl' & Hj & Hl' & Hr).
-  { rewrite mblank_items. exact Hm. }
   rewrite Hsem in Hj. pose proof (J_nonempty _ _ Hj Hv) as Hrn.
   assert (Etk : tk' = norm tk).
   { destruct (exists_last Hrn) as (r0 & [c b] & Er). pose proof Hh' as [(Hg & Hrx & _) _]. rewrite Er, xl_snoc, app_assoc in Hrx.
@@ -1464,6 +1462,9 @@ Proof.
   change (rw_tab (rich_of r)) with (rw_tab r) in Hk.
   set (tk := mkTk (cur :: ps) None false dflt) in *.
   assert (Hhb : has_break_before nodes = false) by (destruct Hh as [_ Hb]; exact (Hb Hend)).
+  assert (Hrd : pac_ready tk nodes).
+  { left. intros ->. destruct Hh as [(_ & Hr & _) _]. destruct Hend as (V0 & c & b & ->). cbn [rx pend tk tk_break tk_repos app] in Hr.
+    symmetry in Hr. apply app_eq_nil in Hr. destruct Hr as [_ Hr]. discriminate Hr. }
   unfold sepof. destruct (Z.eqb_spec (rw_row r) (lastrow + 1)) as [Eadj|Nadj].
   - set (tkA := mkTk ((cur :: ps) ++ [(lastrow + 1, c0)]) (Some (rw_indent r)) false (lastrow + 1, rw_indent r)).
     assert (Etk : tracker_update tk (rw_row r, rw_indent r) = tkA) by (rewrite Eadj; exact (tracker_adj_pac (cur :: ps) lastrow c0 dflt (rw_indent r) Hlast)).
@@ -1474,6 +1475,7 @@ Proof.
     { change (rw_ital (rich_of r)) with (rw_ital r). change (rw_row (rich_of r), rw_indent (rich_of r)) with (rw_row r, rw_indent r).
       rewrite Etk. exact E1. }
     { exact Hl. }
+    { exact Hrd. }
     change (pac_unit d (rich_of r)) with (pac_unit d r) in E. change (rw_tab (rich_of r)) with (rw_tab r) in E.
     exists (tab_eff (rw_tab r) nodes1 tk1), l1, nodes1, sty1. split; [exact E|]. split; [exact Hl1|].
     assert (T : tk_pos (tab_eff (rw_tab r) nodes1 tk1) = tk_pos tk1 /\ tk_break (tab_eff (rw_tab r) nodes1 tk1) = tk_break tk1 /\
@@ -1498,6 +1500,7 @@ Proof.
     { change (rw_ital (rich_of r)) with (rw_ital r). change (rw_row (rich_of r), rw_indent (rich_of r)) with (rw_row r, rw_indent r).
       rewrite Etk. exact E1. }
     { exact Hl. }
+    { exact Hrd. }
     change (pac_unit d (rich_of r)) with (pac_unit d r) in E. change (rw_tab (rich_of r)) with (rw_tab r) in E.
     unfold tab_eff in E. rewrite Hh1 in E. unfold tkF in E. rewrite (tab_far (rw_row r) (rw_indent r) (rw_tab r) Hk) in E.
     eexists _, l1, nodes1, sty1. split; [exact E|]. split; [exact Hl1|]. split; [|split; [reflexivity|left; reflexivity]].
@@ -1509,13 +1512,6 @@ End Rows8.
 Lemma emit_row_m : forall d r, emit_row d r = pac_unit d r ++ mpack d (flat_map mtoks_of_item (rw_items r)) None.
 Proof. intros d r. unfold emit_row. rewrite pack_mpack. reflexivity. Qed.
 
-Lemma nomid_cons : forall r r' t, no_mid_after_full8 (r :: r' :: t) = true ->
-  (row_mid_on_empty r' = true -> (length (cells_of r) < 32)%nat) /\ no_mid_after_full8 (r' :: t) = true.
-Proof.
-  intros r r' t H. cbn [no_mid_after_full8] in H. apply andb_true_iff in H. destruct H as [H1 H2]. split; [|exact H2].
-  intros E. rewrite E, andb_true_r in H1. apply negb_true_iff in H1. lia.
-Qed.
-
 Section Rows8b.
 Variables (st : stash) (p0 : pos) (d : bool) (pa ro : creator) (q : option (creator * Q)) (tm : Q) (tc : str) (off : Q).
 Notation R8 sty tk l nodes fr := (RS st d sty pa ro q tm tc off tk l nodes fr).
@@ -1523,7 +1519,7 @@ Notation R8 sty tk l nodes fr := (RS st d sty pa ro q tm tc off tk l nodes fr).
 (* ---- 20. the second and later rows ---------------------------------------------------------------------------------------------- *)
 Lemma rows_run8 : forall t, Forall (fun r => row_ok r = true) t ->
   forall nx xs pp rprev oprev cur (ps : list pos) lastrow c0 dflt l fr nodes sty ital,
-  chain_ok lastrow t -> rw_row rprev = lastrow -> row_ok rprev = true -> no_mid_after_full8 (rprev :: t) = true ->
+  chain_ok lastrow t -> rw_row rprev = lastrow -> row_ok rprev = true ->
   St2 p0 (mkTk (cur :: ps) None false dflt) nodes sty (flat xs ++ sepx (sepof pp rprev) ++ xl oprev) ital ->
   J None (cells_of rprev) oprev -> rowlast l -> last_is l w_eoc = false ->
   last (map Some (cur :: ps)) None = Some (lastrow, c0) ->
@@ -1532,14 +1528,14 @@ Lemma rows_run8 : forall t, Forall (fun r => row_ok r = true) t ->
       = R8 sty' tk' l' nodes' (fr + Z.of_nat (length (flat_map (emit_row d) t))) /\
     rx false nodes' = flat (xs ++ ys) /\ W p0 nodes' /\ Rrows pp (rprev :: t) ys /\ last_is l' w_eoc = false.
 Proof.
-  intros t F. induction F as [|r t Hrow F IH]; intros nx xs pp rprev oprev cur ps lastrow c0 dflt l fr nodes sty ital Hch Elr Hprev Hnm Hh Hj Hl Hle Hlast.
+  intros t F. induction F as [|r t Hrow F IH]; intros nx xs pp rprev oprev cur ps lastrow c0 dflt l fr nodes sty ital Hch Elr Hprev Hh Hj Hl Hle Hlast.
   - destruct (row_len rprev Hprev) as (Hlen & Hv & _).
     exists (mkTk (cur :: ps) None false dflt), l, nodes, sty, [(sepof pp rprev, oprev)].
     cbn [flat_map tws length]. rewrite Z.add_0_r. split; [reflexivity|].
     destruct Hh as [(_ & Hr & _ & _ & Hw & _) _]. unfold pend in Hr. cbn [tk_break tk_repos] in Hr. rewrite app_nil_r in Hr.
     split; [rewrite Hr, flat_app, flat_one; reflexivity|]. split; [exact Hw|]. split; [|exact Hle].
     cbn [Rrows fst snd]. split; [reflexivity|split; [|exact I]]. exact (lclosed_lineok _ _ (J_lclosed _ _ Hj) Hv Hlen).
-  - destruct Hch as [Hne Hch]. destruct (nomid_cons _ _ _ Hnm) as [Hm Hnm'].
+  - destruct Hch as [Hne Hch].
     destruct (row_len rprev Hprev) as (Hlen & Hv & _). pose proof (J_nonempty _ _ Hj Hv) as Hon.
     cbn [flat_map]. rewrite tws_app, app_length, Nat2Z.inj_add, emit_row_m, tws_app, app_length, Nat2Z.inj_add.
     set (toks := mpack d (flat_map mtoks_of_item (rw_items r)) None).
@@ -1561,7 +1557,6 @@ Proof.
     { right. split; [exact Hon|]. exists z. split; assumption. }
     { exact (J_lclosed _ _ Hj). }
     { exact Hl1. }
-    { exact Hm. }
     fold toks in E2. rewrite E2.
     assert (Htk : exists cur' ps' c1, norm tk2 = mkTk (cur' :: ps') None false (tk_default tk2) /\
                     last (map Some (cur' :: ps')) None = Some (rw_row r, c1)).
@@ -1572,7 +1567,7 @@ Proof.
     destruct Htk as (cur' & ps' & c1 & Etk & Hlast').
     rewrite Etk in *.
     destruct (IH nx (xs ++ [(sp, o')]) (Some lastrow) r rend' cur' ps' (rw_row r) c1 (tk_default tk2) l2
-                (fr + Z.of_nat (length (pac_unit d r)) + Z.of_nat (length toks)) nodes2 sty2 ital2 Hch eq_refl Hrow Hnm')
+                (fr + Z.of_nat (length (pac_unit d r)) + Z.of_nat (length toks)) nodes2 sty2 ital2 Hch eq_refl Hrow)
       as (tk' & l' & nodes' & sty' & ys & E & Hrx & Hw & HR & Hle').
     { fold sr. rewrite flat_app, flat_one. repeat rewrite <- app_assoc in Hh2. repeat rewrite <- app_assoc. exact Hh2. }
     { exact Hj2. }
@@ -1648,6 +1643,9 @@ Qed.
 Lemma lineok_nonempty : forall cs o, lineok cs o -> o <> [].
 Proof. intros cs o (_ & _ & _ & H) ->. discriminate H. Qed.
 
+Lemma lineokw_nonempty : forall cs o, lineokw cs o -> o <> [].
+Proof. intros cs o (_ & _ & _ & H) ->. discriminate H. Qed.
+
 Lemma hasxc_xl : forall o, o <> [] -> hasxc (xl o) = true.
 Proof. intros [|[c b] o] H; [congruence|reflexivity]. Qed.
 
@@ -1662,24 +1660,24 @@ Lemma lc_good8_not_empty : forall ld cr, lc_good8 ld cr -> cr_is_empty cr = fals
 Proof.
   intros ld cr (r & t & xs & -> & Hrx & HR & _). unfold cr_is_empty. apply negb_false_iff. apply (rx_hasxc _ false). rewrite Hrx.
   destruct xs as [|[s o] xs]; [destruct HR|]. cbn [Rrows fst snd] in HR. destruct HR as (_ & Hlo & _).
-  unfold flat. cbn [map concat fst snd]. rewrite !hasxc_app, (hasxc_xl o (lineok_nonempty _ _ Hlo)). rewrite orb_true_r. reflexivity.
+  unfold flat. cbn [map concat fst snd]. rewrite !hasxc_app, (hasxc_xl o (lineokw_nonempty _ _ Hlo)). rewrite orb_true_r. reflexivity.
 Qed.
 
 Lemma lc_ok8_parts : forall ld, lc_ok8 ld = true ->
-  exists r t, ld = r :: t /\ row_ok r = true /\ Forall (fun r => row_ok r = true) t /\ chain_ok (rw_row r) t /\ no_mid_after_full8 (r :: t) = true.
+  exists r t, ld = r :: t /\ row_ok r = true /\ Forall (fun r => row_ok r = true) t /\ chain_ok (rw_row r) t.
 Proof.
-  intros ld H. unfold lc_ok8 in H. apply andb_true_iff in H. destruct H as [Hw Hn].
+  intros ld Hw. unfold lc_ok8 in Hw.
   destruct ld as [|r t]; [discriminate Hw|]. exists r, t. unfold load_wf in Hw.
-  apply andb_true_iff in Hw. destruct Hw as [Hw _]. apply andb_true_iff in Hw. destruct Hw as [Hr Hd].
+  apply andb_true_iff in Hw. destruct Hw as [Hr Hd].
   rewrite forallb_cons in Hr. apply andb_true_iff in Hr. destruct Hr as [Hr Ht].
-  split; [reflexivity|split; [exact Hr|split; [|split; [|exact Hn]]]].
+  split; [reflexivity|split; [exact Hr|split]].
   - apply Forall_forall. intros x Hx. exact (proj1 (forallb_forall _ _) Ht x Hx).
   - cbn [map distinct] in Hd. apply andb_true_iff in Hd. destruct Hd as [Hm Hd]. apply negb_true_iff in Hm.
     apply distinct_chain; assumption.
 Qed.
 
 Lemma lc_ok8_wf : forall ld, lc_ok8 ld = true -> load_wf ld = true.
-Proof. intros ld H. unfold lc_ok8 in H. apply andb_true_iff in H. exact (proj1 H). Qed.
+Proof. intros ld H. exact H. Qed.
 
 (* ---- 25. a load line from any between-lines state --------------------------------------------------------------------------------- *)
 Theorem line8 : forall d off ld st tk l ds q tm tc fr tc' t,
@@ -1691,7 +1689,7 @@ Theorem line8 : forall d off ld st tk l ds q tm tc fr tc' t,
     /\ lc_good8 ld cr /\ last_is l' w_edm = false /\ last_is l' w_enm = false.
 Proof.
   intros d off ld st tk l ds q tm tc fr tc' t H Hl Hg. rewrite translate_line_B. unfold B.
-  destruct (lc_ok8_parts ld H) as (r & rest & -> & Hrow & Frest & Hch & Hnm).
+  destruct (lc_ok8_parts ld H) as (r & rest & -> & Hrow & Frest & Hch).
   assert (El : emit_load d (r :: rest) = (ctl d (ctrl_word 46) ++ ctl d (ctrl_word 32)) ++ pac_unit d r ++
                mpack d (flat_map mtoks_of_item (rw_items r)) None ++ flat_map (emit_row d) rest ++ ctl d (ctrl_word 47)).
   { unfold emit_load. cbn [flat_map]. rewrite emit_row_m, <- !app_assoc. reflexivity. }
@@ -1725,12 +1723,11 @@ Proof.
   { left. repeat split. }
   { exists [], []. split; [reflexivity|split; [reflexivity|split; [constructor|left; reflexivity]]]. }
   { exact Hl1. }
-  { intros _. cbn [length]. lia. }
   fold toks in E2. unfold RS in E2. rewrite E2.
   assert (Eo : o' = []) by (destruct Hs2 as [(_ & Eo & _)|(_ & z & _ & X)]; [exact Eo|discriminate X]). subst o'.
   destruct (rows_run8 st p0 d creator0 creator0 q tm tc' off rest Frest (nxt (ctl d (ctrl_word 47)) None) [] None r rend' p0 [] (rw_row r)
               (rw_indent r + rw_tab r) p0 l2 (0 + (if d then 4 else 2) + Z.of_nat (length (pac_unit d r)) + Z.of_nat (length toks))
-              nodes2 sty2 ital2 Hch eq_refl Hrow Hnm)
+              nodes2 sty2 ital2 Hch eq_refl Hrow)
     as (tk3 & l3 & nodes3 & sty3 & ys & E3 & Hrx & Hw & HR & Hle3).
   { cbn [flat concat map sepof sepx app xl] in Hh2 |- *. exact Hh2. }
   { exact Hj2. }
@@ -1755,6 +1752,9 @@ Qed.
 Definition ebounds (e : ecap) : Prop := 1 <= e_row e <= 15 /\ 0 <= e_col e <= 31.
 Definition capok (e : ecap) (v : rawv) : Prop :=
   fst v = (e_row e, e_col e) /\ Forall2 lineok (e_lines e) (snd v) /\ ebounds e /\ snd v <> [].
+(* before pass 7 *)
+Definition capokw (e : ecap) (v : rawv) : Prop :=
+  fst v = (e_row e, e_col e) /\ Forall2 lineokw (e_lines e) (snd v) /\ ebounds e /\ snd v <> [].
 
 Lemma flat_cons : forall so xs, flat (so :: xs) = sepx (fst so) ++ xl (snd so) ++ flat xs.
 Proof. intros so xs. unfold flat. cbn [map concat]. rewrite <- app_assoc. reflexivity. Qed.
@@ -1768,8 +1768,8 @@ Proof.
 Qed.
 
 Lemma group_view : forall t, Forall (fun r => row_ok r = true) t -> forall xs lr e p cur ls,
-  Rrows (Some lr) t xs -> capok e (p, ls ++ [cur]) ->
-  Forall2 capok (group_rows t (Some (e, lr))) (xcaps (flat xs) p cur ls).
+  Rrows (Some lr) t xs -> capokw e (p, ls ++ [cur]) ->
+  Forall2 capokw (group_rows t (Some (e, lr))) (xcaps (flat xs) p cur ls).
 Proof.
   intros t F. induction F as [|r t Hrow F IH]; intros xs lr e p cur ls HR Hc.
   - destruct xs as [|so xs]; [|destruct HR]. cbn [group_rows flat concat map xcaps]. constructor; [exact Hc|constructor].
@@ -1787,7 +1787,7 @@ Proof.
 Qed.
 
 Lemma load_view : forall r t xs, row_ok r = true -> Forall (fun r => row_ok r = true) t -> Rrows None (r :: t) xs ->
-  Forall2 capok (expected_load (r :: t)) (xcaps (flat xs) (row_pos r) [] []).
+  Forall2 capokw (expected_load (r :: t)) (xcaps (flat xs) (row_pos r) [] []).
 Proof.
   intros r t xs Hrow F HR. destruct xs as [|so xs]; [destruct HR|]. cbn [Rrows] in HR. destruct HR as (Es & Hlo & HR).
   rewrite flat_cons, Es. unfold expected_load. cbn [group_rows sepof sepx app]. rewrite xcaps_xl. cbn [app].
@@ -1795,28 +1795,28 @@ Proof.
   split; [reflexivity|split; [|split; [exact (row_bounds r Hrow)|discriminate]]]. cbn [e_lines snd app]. constructor; [exact Hlo|constructor].
 Qed.
 
-(* stripping blanks at the end of lines keeps all this *)
-Lemma lineok_lrel : forall cs o o', lineok cs o -> lrel o o' -> lineok cs o'.
+(* pass 7 strips the blanks at the end of the lines: what is left fits the row *)
+Lemma lineok_srel : forall cs o o', lineokw cs o -> srel o o' -> lineok cs o'.
 Proof.
-  intros cs o o' (Hm & Hl & Hg & Hv) (sp & -> & Hb).
+  intros cs o o' (Hm & Hl & Hg & Hv) ((sp & -> & Hb) & Hs).
   split; [|split; [|split]].
   - unfold match_line in *. rewrite (rstrip_obs_app_blanks o' sp Hb) in Hm. exact Hm.
-  - rewrite app_length in Hl. lia.
+  - pose proof (app_length o' sp) as L. destruct (endsb (o' ++ sp)); [specialize (Hs eq_refl)|]; lia.
   - apply Forall_app in Hg. exact (proj1 Hg).
   - rewrite existsb_app, (blanks_novis sp Hb), orb_false_r in Hv. exact Hv.
 Qed.
 
-Lemma F2_lineok_lrel : forall ls os os', Forall2 lineok ls os -> Forall2 lrel os os' -> Forall2 lineok ls os'.
+Lemma F2_lineok_srel : forall ls os os', Forall2 lineokw ls os -> Forall2 srel os os' -> Forall2 lineok ls os'.
 Proof.
   intros ls os os' H. revert os'. induction H as [|l o ls os H1 H IH]; intros os' H2; inversion H2; subst; constructor.
-  - eapply lineok_lrel; eassumption.
+  - eapply lineok_srel; eassumption.
   - apply IH. assumption.
 Qed.
 
-Lemma capok_vrel : forall es vs vs', Forall2 capok es vs -> Forall2 vrel vs vs' -> Forall2 capok es vs'.
+Lemma capok_vrel : forall es vs vs', Forall2 capokw es vs -> Forall2 vrel vs vs' -> Forall2 capok es vs'.
 Proof.
   intros es vs vs' H. revert vs'. induction H as [|e v es vs H1 H IH]; intros vs' H2; inversion H2 as [|v0 v' vs0 vs'0 Hv H3]; subst; constructor.
-  - destruct H1 as (Hp & Hl & Hb & Hn). destruct Hv as [Ev Hv]. split; [rewrite <- Ev; exact Hp|split; [exact (F2_lineok_lrel _ _ _ Hl Hv)|split; [exact Hb|]]].
+  - destruct H1 as (Hp & Hl & Hb & Hn). destruct Hv as [Ev Hv]. split; [rewrite <- Ev; exact Hp|split; [exact (F2_lineok_srel _ _ _ Hl Hv)|split; [exact Hb|]]].
     intros X. rewrite X in Hv. inversion Hv. congruence.
   - apply IH. assumption.
 Qed.
@@ -1937,7 +1937,7 @@ Theorem good8 : forall ld cr st t0 t1, lc_ok8 ld = true -> lc_good8 ld cr ->
        load_ok (expected_load ld) (map observe (map (set_end e) caps) ++ rest) None = Some (rest, Some (t0, e))).
 Proof.
   intros ld cr st t0 t1 Hok Hg. pose proof (lc_good8_not_empty ld cr Hg) as Hemp.
-  destruct (lc_ok8_parts ld Hok) as (r & t & -> & Hrow & Ft & _ & _).
+  destruct (lc_ok8_parts ld Hok) as (r & t & -> & Hrow & Ft & _).
   destruct Hg as (r' & t' & xs & Eld & Hrx & HR & Hw). injection Eld as <- <-.
   set (nodes := cr_nodes cr) in *. set (F := format_italics nodes). set (p0 := row_pos r) in *.
   set (caps := build_captions F t0 t1 [] (mkPre t0 t1 [] None)).
@@ -2023,21 +2023,40 @@ Proof.
   rewrite Hor. reflexivity.
 Qed.
 
-(* ---- 31. the statement for load_wf alone is false; non-vacuity ------------------------------------------------------------------ *)
+(* ---- 31. the former counterexamples; non-vacuity ------------------------------------------------------------------------------- *)
 (* a row of 32 characters, then (not on the next screen row) a row whose mid-row code arrives after a backspace has emptied
-   the row: load_wf holds, the reader appends a blank to the full line and the length check of `read` raises *)
+   the row: the reader appends a blank to the full line, the text node then stands directly in front of the REPOSITION node
+   and is right-stripped by pass 7: the load is read, the first caption has its 32 characters *)
 Definition cex_load : load := [mkRow 3 0 0 0 (map Ch (repeat 97 32)); mkRow 8 0 0 0 [Ch 97; Bs; Mid 0; Ch 98]].
-Example load_wf_not_enough :
-  load_wf cex_load = true /\ lc_ok8 cex_load = false /\
-  forallb (fun d => match read 0 [(lit "00:00:01;00", emit_load d cex_load); (lit "00:00:05;00", emit_clear d)] with
-                    | RLen _ => true | _ => false end) [false; true] = true.
+Example cex_load_now_reads :
+  load_wf cex_load = true /\ lc_ok8 cex_load = true /\
+  map (fun d => match read 0 [(lit "00:00:01;00", emit_load d cex_load); (lit "00:00:05;00", emit_clear d)] with
+                | ROk caps => Some (map (fun c => (cap_text c, length (cap_text c))) caps) | _ => None end) [false; true]
+  = [Some [(repeat 97 32, 32%nat); ([98], 1%nat)]; Some [(repeat 97 32, 32%nat); ([98], 1%nat)]].
 Proof. vm_compute. repeat split. Qed.
 
-(* the shape the spec already excludes is an instance of the shape excluded here *)
-Lemma starts_with_mid_empty : forall r, starts_with_mid r = true -> row_mid_on_empty r = true.
-Proof.
-  intros r H. unfold starts_with_mid in H. unfold row_mid_on_empty. destruct (rw_items r) as [|[c|i|s g i|a|] t]; try discriminate H. reflexivity.
-Qed.
+(* the same with an ITALIC full row and an italic mid-row code on the still empty new row (italic or plain preamble): the
+   blank goes to the full line, the italics are closed in front of the reposition (queued ItalOn Text(33) [ItalOff ItalOn]
+   Text() Repos Text, passes 1-6 give ItalOn Text(33) ItalOff Repos ItalOn Text ItalOff): pass 7 looks through the
+   italics-off node and strips the text node; the first caption has its 32 characters (until pass 7 did so, `read` raised
+   CaptionLineLengthError on these two loads) *)
+Definition cex_load_ital : load := [mkRow 3 0 0 14 (map Ch (repeat 97 32)); mkRow 8 0 0 14 [Mid 14; Ch 98]].
+Definition cex_load_ital2 : load := [mkRow 3 0 0 14 (map Ch (repeat 97 32)); mkRow 8 0 0 0 [Mid 14; Ch 98]].
+Example cex_loads_now_read :
+  forallb (fun ld => load_wf ld &&
+     forallb (fun d => match read 0 [(lit "00:00:01;00", emit_load d ld); (lit "00:00:05;00", emit_clear d)] with
+                       | ROk (c :: _) => Nat.eqb (length (cap_text c)) 32 | _ => false end) [false; true]) [cex_load_ital; cex_load_ital2] = true.
+Proof. vm_compute. reflexivity. Qed.
+
+(* the other shapes that failed: the second row directly below the full italic row (one caption, BREAK: 32 + newline + text) *)
+Definition cex_load_adj : load := [mkRow 3 0 0 14 (map Ch (repeat 97 32)); mkRow 4 0 0 14 [Mid 14; Mid 0; Ch 98]].
+Definition cex_load_adj2 : load := [mkRow 3 0 0 14 (map Ch (repeat 97 32)); mkRow 4 0 0 14 [Mid 14; Ch 44]].
+Example cex_loads_adj_now_read :
+  forallb (fun ld => load_wf ld &&
+     forallb (fun d => match read 0 [(lit "00:00:01;00", emit_load d ld); (lit "00:00:05;00", emit_clear d)] with
+                       | ROk [c] => Nat.eqb (length (cap_text c)) 34 && ok_c05 (mkProg d [ld]) (Ok [observe c]) | _ => false end) [false; true])
+    [cex_load_adj; cex_load_adj2] = true.
+Proof. vm_compute. reflexivity. Qed.
 
 (* the domain is inhabited: three captions; italics carried over a break and over a reposition; mid-row codes first,
    in the middle and last in a row; a backspace emptying a row before a mid-row code (after a row that is not full);
@@ -2057,8 +2076,5 @@ Proof.
   apply (popon_stage8 true wit_load8 0 (lit "00:00:01;00") (lit "00:00:05;00") 2700000 5000000); vm_compute; reflexivity.
 Qed.
 
-(* OPEN: nothing of the stage-8 plan inside lc_ok8 (stages A, B, C of the plan are all instances of line8 / good8 /
-   popon_stage8). Outside: loads with a full row followed by a row with row_mid_on_empty (see load_wf_not_enough: for rows
-   that are NOT adjacent the model raises CaptionLineLengthError; for adjacent rows the blank is stripped again by pass 7 of
-   _format_italics and, in the examples computed, the load is read correctly, but that case is not proved here). Whole programs: apply Section Lift of
-   stage 7 to lc_ok8 / lc_good8 / line8 / good8 / lc_ok8_wf. *)
+(* OPEN: nothing of the stage-8 plan: lc_ok8 = load_wf (stages A, B, C of the plan are all instances of line8 / good8 /
+   popon_stage8). Whole programs: apply Section Lift of stage 7 to lc_ok8 / lc_good8 / line8 / good8 / lc_ok8_wf. *)
